@@ -178,7 +178,7 @@ Proof.
     destruct (send_global_ZOK beh G_RMC (mkEv 0 0 k) w HZ) as (Z1 & _ & _).
     destruct (send_global beh RFUEL G_RMC (mkEv 0 0 k) w) as [[] w1|f w1]; cbn [rbind res_world] in *; [|discriminate].
     destruct (add_targeted_event_ZOK beh T_DESPAWN w1 Z1) as (Z2 & _ & P2).
-    destruct (add_targeted_event beh T_DESPAWN w1) as [dk w2|f w2]; cbn [rbind res_world] in *; [|discriminate]. destruct P2 as [_ Hdk].
+    destruct (add_targeted_event beh T_DESPAWN w1) as [dk w2|f w2]; cbn [rbind res_world] in *; [|discriminate]. destruct P2 as [_ [Hdk _]].
     match type of E with context [flush beh ?q0 w2] => set (q := q0) in * end.
     assert (Hq : forall x, In x q -> item_ok w2 x).
     { intros x Hin. unfold q in Hin. apply in_flat_map in Hin as ([ai a] & _ & Hin). destruct (arch_has a (fst k)); [|destruct Hin].
@@ -210,3 +210,31 @@ Proof.
     + destruct (K3 i ek info (fst k) Hg (or_intror Hk)) as (kc & ci & X & _). congruence.
 Qed.
 End U.
+
+(* ---------- C02: World::get reads the storage map ---------- *)
+Theorem op_get_is_abs e ktag w : StoreInv w ->
+  op_get e ktag w = inr (match alookup ktag (w_cby w) with Some ck => abs w e (fst ck) | None => None end).
+Proof.
+  intros (_ & Hl & Hw). unfold op_get, abs. destruct (sm_get e (w_ents w)) as [[ai row]|] eqn:He; [|now destruct (alookup ktag (w_cby w))].
+  destruct (alookup ktag (w_cby w)) as [ck|]; [|reflexivity]. destruct (Hl _ _ _ He) as (a & vals & Ha & Hrow).
+  unfold arch_at in *. cbn [fst snd]. rewrite Ha, Hrow. unfold row_col. destruct (col_index (a_comps a) (fst ck)) as [ci|] eqn:Ec; [|reflexivity].
+  destruct (Hw ai a row e vals Ha Hrow) as [_ Hlen]. apply col_index_lt in Ec.
+  destruct (nget_lt_some vals ci) as [v Hv]; [unfold nlen in *; rewrite Hlen; exact Ec|]. now rewrite Hv.
+Qed.
+Theorem reachable_get_is_abs beh fuel p ops e ktag : let w := fold_left (run_top_all beh) ops (world0 fuel p) in
+  op_get e ktag w = inr (match alookup ktag (w_cby w) with Some ck => abs w e (fst ck) | None => None end).
+Proof. cbn zeta. apply op_get_is_abs. destruct (reachable_ZI beh fuel p ops) as [[HD _] _]. destruct (DI_parts _ HD) as ([[[X _] _] _] & _). exact X. Qed.
+
+(* ---------- C08 / C15: the handlers a delivery runs listen for exactly the delivered event (not merely its index) ---------- *)
+Theorem delivered_receive_this_event w it hk : ZI w -> In hk (delivered_to w it) ->
+  exists h ek info, hlive w hk h /\
+    (if qi_targeted it then h_recv h = RvTargeted ek /\ get_by_index (w_tev w) (qi_idx it) = Some (ek, info)
+     else h_recv h = RvGlobal ek /\ get_by_index (w_gev w) (qi_idx it) = Some (ek, info)).
+Proof.
+  intros [[HD _] (_ & _ & _ & HR)] Hin. destruct (DI_parts _ HD) as (_ & HH & _ & _).
+  apply (proj2 (delivered_to_exact w it HH)) in Hin. destruct (qi_targeted it).
+  - destruct Hin as (loc & a & h & ek & _ & _ & Hl & Hrv & Hi & _). pose proof (HR hk h Hl) as Hr. unfold recv_ok in Hr. rewrite Hrv in Hr.
+    destruct (sm_get ek (w_tev w)) as [info|] eqn:E; [|tauto]. exists h, ek, info. split; [exact Hl|]. split; [exact Hrv|]. rewrite <- Hi. now apply gbi_of_get.
+  - destruct Hin as (h & ek & Hl & Hrv & Hi). pose proof (HR hk h Hl) as Hr. unfold recv_ok in Hr. rewrite Hrv in Hr.
+    destruct (sm_get ek (w_gev w)) as [info|] eqn:E; [|tauto]. exists h, ek, info. split; [exact Hl|]. split; [exact Hrv|]. rewrite <- Hi. now apply gbi_of_get.
+Qed.
